@@ -37,4 +37,128 @@ def C04(tier):
                 functions=['myth_mutex_lock_body', 'myth_mutex_trylock_body', 'myth_mutex_unlock_body', 'myth_mutex_clear_lock_bit',
                            'myth_block_on_queue', 'myth_block_on_queue_cb', 'myth_wake_one_from_queue', 'myth_sleep_queue_enq', 'myth_sleep_queue_deq'])
 
-SPECS = {'C04': C04}
+
+def C05(tier):
+    src = 'harness/C05_cond.c'
+    jobs = [
+        bjob('cond.signal.w1.r4', src, ['t0', 't1'], 4, ['-DVN=2', '-DMODE=0']),
+        bjob('cond.broadcast.w1.r4', src, ['t0', 't1'], 4, ['-DVN=2', '-DMODE=1']),
+        bjob('cond.signal_noop', 'harness/C05_signal_noop.c', ['t0', 't1'], 1, []),
+    ]
+    if tier == 'thorough':
+        jobs += [
+            bjob('cond.broadcast.w2.r4', src, ['t0', 't1', 't2'], 4, ['-DVN=3', '-DMODE=2'], timeout=5400, mem_gb=16),
+            bjob('cond.signal2.w2.r4', src, ['t0', 't1', 't2'], 4, ['-DVN=3', '-DMODE=3'], timeout=5400, mem_gb=16),
+            bjob('cond.signal.w1.r5', src, ['t0', 't1'], 5, ['-DVN=2', '-DMODE=0'], timeout=5400),
+        ]
+    return dict(jobs=jobs, assumptions=MODEL_ASSUMPTIONS,
+                functions=['myth_cond_wait_body', 'myth_cond_signal_body', 'myth_cond_broadcast_body', 'myth_wake_if_any_from_queue', 'myth_wake_all_from_queue',
+                           'myth_block_on_queue', 'myth_block_on_queue_cb', 'myth_mutex_lock_body', 'myth_mutex_unlock_body', 'myth_mutex_lock (myth_if_native.c)'])
+
+def C06(tier):
+    src = 'harness/C06_barrier.c'
+    jobs = [
+        bjob('barrier.n2.k2.r4', src, ['t0', 't1'], 4, ['-DVN=2', '-DROUNDS=2'], preempt='sync'),
+        bjob('barrier.n2.k1.r3.all', src, ['t0', 't1'], 3, ['-DVN=2', '-DROUNDS=1'], preempt='all'),
+    ]
+    if tier == 'thorough':
+        jobs += [
+            bjob('barrier.n3.k2.r4', src, ['t0', 't1', 't2'], 4, ['-DVN=3', '-DROUNDS=2'], timeout=5400, mem_gb=16),
+            bjob('barrier.n2.k2.r4.all', src, ['t0', 't1'], 4, ['-DVN=2', '-DROUNDS=2'], preempt='all', timeout=5400, mem_gb=16),
+            bjob('barrier.n2.k3.r5', src, ['t0', 't1'], 5, ['-DVN=2', '-DROUNDS=3'], timeout=5400, mem_gb=16),
+        ]
+    return dict(jobs=jobs, assumptions=MODEL_ASSUMPTIONS,
+                functions=['myth_barrier_wait_body', 'myth_wake_many_from_stack', 'myth_block_on_stack', 'myth_block_on_stack_cb', 'myth_sleep_stack_push', 'myth_sleep_stack_pop'])
+
+def C07(tier):
+    src = 'harness/C07_joincounter.c'
+    jobs = [
+        bjob('jc.d1.w1.r3', src, ['t0', 't1'], 3, ['-DVN=2', '-DNDEC=1', '-DMODE=1']),
+        bjob('jc.d2.w1.r3', src, ['t0', 't1', 't2'], 3, ['-DVN=3', '-DNDEC=2', '-DMODE=0']),
+        Job('jc.bits', 'A', src='harness/C07_bits.c', cbmc=['--unwind', '65'], bounds=dict(n_threads='all values in [0, 2^62)', unwind=65), timeout=900),
+    ]
+    if tier == 'thorough':
+        jobs += [
+            bjob('jc.d1.w2.r4', src, ['t0', 't1', 't2'], 4, ['-DVN=3', '-DNDEC=1', '-DMODE=0'], timeout=5400, mem_gb=16),
+            bjob('jc.d2.w1.r4', src, ['t0', 't1', 't2'], 4, ['-DVN=3', '-DNDEC=2', '-DMODE=1'], timeout=5400, mem_gb=16),
+            bjob('jc.d1.w1.r4.all', src, ['t0', 't1'], 4, ['-DVN=2', '-DNDEC=1', '-DMODE=1'], preempt='all', timeout=5400),
+        ]
+    return dict(jobs=jobs, assumptions=MODEL_ASSUMPTIONS,
+                functions=['myth_join_counter_init_body', 'calc_bits', 'myth_join_counter_wait_body', 'myth_join_counter_dec_body', 'myth_wake_many_from_queue', 'myth_block_on_queue'])
+
+def C08(tier):
+    src = 'harness/C08_uncond.c'
+    jobs = [
+        bjob('uncond.rv2.r4', src, ['t0', 't1'], 4, ['-DRV=2']),
+        bjob('uncond.rv1.r3.all', src, ['t0', 't1'], 3, ['-DRV=1'], preempt='all'),
+    ]
+    if tier == 'thorough':
+        jobs += [bjob('uncond.rv2.r5.all', src, ['t0', 't1'], 5, ['-DRV=2'], preempt='all', timeout=5400, mem_gb=16),
+                 bjob('uncond.rv3.r6', src, ['t0', 't1'], 6, ['-DRV=3'], timeout=5400, mem_gb=16)]
+    return dict(jobs=jobs, assumptions=MODEL_ASSUMPTIONS + ['protocol assumption from the documentation: the waiter announces itself atomically before calling wait and the signaller signals only after seeing the announcement'],
+                functions=['myth_uncond_wait_body', 'myth_uncond_wait_cb', 'myth_uncond_signal_body'])
+
+def C09(tier):
+    src = 'harness/C09_felock.c'
+    jobs = [
+        bjob('felock.p1c1.i1.r4', src, ['t0', 't1'], 4, ['-DNP=1', '-DNC=1', '-DITEMS=1']),
+        bjob('felock.p1c1.i2.r4', src, ['t0', 't1'], 4, ['-DNP=1', '-DNC=1', '-DITEMS=2'], timeout=2400),
+    ]
+    if tier == 'thorough':
+        jobs += [bjob('felock.p2c1.i1.r4', src, ['t0', 't1', 't2'], 4, ['-DNP=2', '-DNC=1', '-DITEMS=1'], timeout=7200, mem_gb=20),
+                 bjob('felock.p1c2.i2.r4', src, ['t0', 't1', 't2'], 4, ['-DNP=1', '-DNC=2', '-DITEMS=2'], timeout=7200, mem_gb=20),
+                 bjob('felock.p1c1.i2.r6', src, ['t0', 't1'], 6, ['-DNP=1', '-DNC=1', '-DITEMS=2'], timeout=7200, mem_gb=20)]
+    return dict(jobs=jobs, assumptions=MODEL_ASSUMPTIONS,
+                functions=['myth_felock_wait_and_lock_body', 'myth_felock_mark_and_signal_body', 'myth_felock_status_body', 'myth_cond_wait (myth_if_native.c)', 'myth_cond_signal (myth_if_native.c)', 'myth_mutex_lock_body', 'myth_mutex_unlock_body'])
+
+def C14(tier):
+    src = 'harness/C14_once.c'
+    jobs = [
+        bjob('once.c2.r4', src, ['t0', 't1'], 4, ['-DVN=2', '-DMODE=1']),
+        bjob('once.c3.r3', src, ['t0', 't1', 't2'], 3, ['-DVN=3', '-DMODE=0']),
+    ]
+    if tier == 'thorough':
+        jobs += [bjob('once.c3.r5.all', src, ['t0', 't1', 't2'], 5, ['-DVN=3', '-DMODE=1'], preempt='all', timeout=3600)]
+    return dict(jobs=jobs, assumptions=MODEL_ASSUMPTIONS + ['myth_yield() inside myth_once_wait_until is modelled as a plain scheduling yield'],
+                functions=['myth_once_body', 'myth_once_try_set', 'myth_once_wait_until'])
+
+
+A_ASSUME = ['malloc/mmap never fail (--no-malloc-may-fail)', 'environment functions are nondeterministic stubs constrained only by their documented contract (listed per harness)']
+def ajob(name, src, defs=(), unwind=6, timeout=1200, mem_gb=10, replace_calls=(), bounds=None, extra=(), wrap='MYTH_WRAP_VANILLA', note='', remove_bodies=(), func=None, sat=None):
+    b = dict(unwind=unwind); b.update(bounds or {})
+    return Job(name, 'A', src=src, defs=list(defs), cbmc=['--unwind', str(unwind)] + list(extra), timeout=timeout, mem_gb=mem_gb,
+               replace_calls=list(replace_calls), bounds=b, wrap=wrap, note=note, remove_bodies=list(remove_bodies), func=func, sat=sat)
+
+def C20(tier):
+    src = 'harness/C20_time.c'; rc = ['myth_yield_ex_body:stub_yield_ex']
+    K = 4 if tier == 'quick' else 6
+    names = ['timespec_add_gt', 'nanosleep', 'sleep', 'timedlock', 'timedjoin', 'hr_gettime', 'usleep_kernel']
+    jobs = [ajob('time.%s.k%d' % (names[i], K), src, ['-DSCEN=%d' % i, '-DKMAX=%d' % K], unwind=K + 3,
+                 replace_calls=rc + (['myth_nanosleep_body:stub_nanosleep'] if i == 6 else []), timeout=600, sat=('cvc5-int' if i == 6 else None),
+                 bounds=dict(clock_readings_until_forced_past_deadline=K, timespec='all values (tv_sec < 2^40 for clock readings and requests, < 2^61 in timespec_add)'))
+            for i in range(7)]
+    return dict(jobs=jobs, assumptions=A_ASSUME + ['clock_gettime returns an arbitrary non-decreasing sequence of valid timespecs and passes the deadline at the K-th reading at the latest',
+                'myth_yield_ex_body is replaced by a stub in which other threads may lock/unlock the mutex or let the join target finish (the real yield is covered by C01/C02)'],
+                functions=['myth_nanosleep_body', 'myth_usleep_body', 'myth_sleep_body', 'myth_timespec_add', 'myth_timespec_gt', 'myth_mutex_timedlock_body', 'myth_mutex_trylock_body',
+                           'myth_timedjoin_body', 'myth_tryjoin_body', 'myth_join_1', 'hr_gettime'])
+
+
+def C11(tier):
+    src = 'harness/C11_destructors.c'
+    jobs = [ajob('dtor.k2', src, ['-DNK=2', '-DNPOOL=7', '-DLPOOL=2'], unwind=18, timeout=1500, bounds=dict(keys='2 symbolic keys over all 1024 indices, destructor present/absent and value NULL/non-NULL symbolic')),
+            ajob('dtor.k2.leak', src, ['-DNK=2', '-DNPOOL=7', '-DLPOOL=2', '-DLEAK=1'], unwind=18, timeout=1500, bounds=dict(keys='2 symbolic keys, additionally all heap nodes released'))]
+    if tier == 'thorough':
+        jobs += [ajob('dtor.k3', src, ['-DNK=3', '-DNPOOL=10', '-DLPOOL=3'], unwind=18, timeout=7200, mem_gb=24, bounds=dict(keys='3 symbolic keys over all 1024 indices'))]
+    return dict(jobs=jobs, assumptions=A_ASSUME + ['tree nodes come from typed static pools standing for real_malloc; the embedded pre-allocation pool is put into its valid state "exhausted" (its bump arithmetic is covered by C10 tree.embedded)',
+                                                 'a destructor call with a NULL value is not counted as a violation (the statement does not forbid it)'],
+                functions=['myth_tls_tree_set', 'myth_tls_tree_fini', 'myth_tls_call_destructors', 'myth_tls_call_destructors_rec', 'myth_tls_tree_destroy', 'myth_tls_tree_destroy_rec', 'myth_tls_tree_node_free'])
+
+def C10(tier):
+    jobs = [ajob('tree.k2', 'harness/C10_tree.c', ['-DNK=2', '-DNPOOL=8', '-DLPOOL=3'], unwind=18, timeout=1500, bounds=dict(keys='2 stored keys + 1 queried key, each symbolic in [-2, 1025]')),
+            ajob('keyalloc.seq', 'harness/C10_keyalloc_seq.c', [], unwind=6, timeout=900, bounds=dict(state='arbitrary free list of two cells, all other cells live; 6 operations'))]
+    if tier == 'thorough':
+        jobs += [ajob('tree.k3', 'harness/C10_tree.c', ['-DNK=3', '-DNPOOL=10', '-DLPOOL=4'], unwind=18, timeout=7200, mem_gb=24, bounds=dict(keys='3 stored keys + 1 queried key'))]
+    return dict(jobs=jobs, assumptions=A_ASSUME + ['tree nodes come from typed static pools standing for real_malloc'],
+                functions=['myth_tls_tree_get', 'myth_tls_tree_set', 'myth_tls_tree_init', 'myth_tls_key_allocator_alloc', 'myth_tls_key_allocator_dealloc'])
+
+SPECS = {'C04': C04, 'C20': C20, 'C11': C11, 'C10': C10, 'C05': C05, 'C06': C06, 'C07': C07, 'C08': C08, 'C09': C09, 'C14': C14}
